@@ -19,12 +19,15 @@ package peersim
 //	    draw is still made so that choice lists have the same shape).
 
 import (
+	"fmt"
 	"math/rand"
 	"net"
 	"os"
 	"runtime"
+	"runtime/debug"
 	"strconv"
 	"strings"
+	"sync"
 	"sync/atomic"
 	"syscall"
 	"testing"
@@ -546,6 +549,11 @@ func (s *sim) drawInvOp(c *caller) *op {
 	if s.associated && !s.established() {
 		s.preEstQueued++
 	}
+	if s.established() && s.k.trickle > 0 && o.invTyp == 1 && ch.Bool(40, "inv-flood") {
+		// several full inventory messages' worth in one trickle tick
+		o.invN = []int{1000, 1001, 2001, 3001, 3600}[ch.Intn(5, "inv-flood-n")]
+		s.r.Probe("inventory-flood")
+	}
 	return o
 }
 
@@ -563,6 +571,9 @@ func opDesc(o *op) string {
 		}
 		return d + ")#" + itoa(o.id) + "@c" + itoa(o.caller)
 	case opQueueInv:
+		if o.invN > 1 {
+			return "QueueInventory(t" + itoa(int(o.invTyp)) + " x" + itoa(o.invN) + ")#" + itoa(o.id) + "@c" + itoa(o.caller)
+		}
 		return "QueueInventory(t" + itoa(int(o.invTyp)) + ")#" + itoa(o.id) + "@c" + itoa(o.caller)
 	default:
 		return "Disconnect#" + itoa(o.id) + "@c" + itoa(o.caller)
@@ -1006,6 +1017,9 @@ func (s *sim) finish() {
 			s.endStep("6m0s (final silence)")
 			s.noteCause("timeout")
 		}
+		if s.discStep < 0 && s.associated && c.Bool(250, "disconnect-storm") {
+			s.disconnectStorm()
+		}
 		if s.discStep < 0 {
 			idle := s.idleCallers()
 			if len(idle) > 0 {
@@ -1041,6 +1055,66 @@ func (s *sim) finish() {
 	time.Sleep(5 * time.Minute)
 	s.endStep("5m0s")
 	s.finalOracles()
+}
+
+// disconnectStorm: several goroutines call Disconnect at the same instant
+// (they spin on a start flag so that they really overlap).  The connection
+// and the quit channel must be closed exactly once: a second close panics.
+// The outcome does not depend on who wins, so the step is replayable.
+func (s *sim) disconnectStorm() {
+	s.y.disarm()
+	for s.y.nParked() > 0 {
+		s.beginStep("release", false)
+		site := s.y.release(0, s.disconnectFlagged())
+		s.endStep("%s (before the storm)", site)
+	}
+	s.beginStep("disconnect-storm", false)
+	n := runtime.GOMAXPROCS(0) - 1
+	single := n < 1
+	if n < 1 {
+		n = 1
+	}
+	if n > 3 {
+		n = 3
+	}
+	var start int32
+	var wg sync.WaitGroup
+	var mu sync.Mutex
+	panicked := ""
+	call := func() {
+		defer func() {
+			if p := recover(); p != nil {
+				mu.Lock()
+				panicked = fmt.Sprint(p) + "\n" + string(debug.Stack())
+				mu.Unlock()
+			}
+		}()
+		s.p.Disconnect()
+	}
+	for i := 0; i < n; i++ {
+		wg.Add(1)
+		go func() {
+			defer wg.Done()
+			for atomic.LoadInt32(&start) == 0 {
+				if single {
+					runtime.Gosched()
+				}
+			}
+			call()
+		}()
+	}
+	for i := 0; i < 50; i++ {
+		runtime.Gosched() // let the spinners reach their loop
+	}
+	atomic.StoreInt32(&start, 1)
+	call()
+	wg.Wait()
+	s.r.Fault("concurrent_disconnects")
+	s.noteCause("disconnect-storm")
+	s.endStep("%d concurrent Disconnect calls", n+1)
+	if panicked != "" {
+		s.r.Violate(prop, "O5-closed-once", "", "concurrent Disconnect calls panicked: %s", panicked)
+	}
 }
 
 // cleanup runs on every exit path (also when an oracle fired): nothing of
